@@ -145,7 +145,7 @@ pub fn replay(v: &Value) -> Outcome {
 
 pub fn run(env: &Env, known: &Known, started: Instant, replayed: u64, replay_violations: Vec<Violation>) -> i32 {
     verify_catalogue();
-    let cfg = ChoiceRun { env, pid: PID, part: "documents", cases: env.tier.pick(20_000, 600_000), max_len: 900, known };
+    let cfg = ChoiceRun { env, pid: PID, part: "documents", cases: env.tier.pick(60_000, 600_000), max_len: 900, known };
     let rr = run_choices(&cfg, run_case);
     let ev = Evidence {
         env, pid: PID, level: "exploration",
